@@ -12,10 +12,10 @@
   * A function that can write into its argument returns the argument's post-state next to
     its result: `toComplex : … → Except Err GQ × J`, `loadNetwork : … → Except Err … × J`.
     Purity is then a statement (`(loadNetwork T d).2 = d`), not an assumption.
-  * In-place functions (`undictify_*`, `dictify_*`: they return their own argument) return
-    `Option Err × J`: the exception, if any, and the post-state — which on success is also
-    the returned value.  On an exception the post-state is the partially converted
-    argument, exactly as Python leaves it.
+  * The conversions of dump_load.py build new containers (since fix 2481879); they are plain
+    functions `J → Except Err J`.  That they do not touch their argument is not a statement of
+    this file but of the generated effect summary (CC/Gen/Effects.lean, C20) and of the
+    snapshot oracle of the harness.
   * `cos`, `sin`, the float product `x·(π/180)` and `np.deg2rad` are parameters (`Trig`);
     the harness passes numpy's values.  The (de)serialisers are parameters of
     `serialize`/`deserialize`.
@@ -235,14 +235,33 @@ def entryToBranchObj (T : Trig) (o : Obj) : Except Err LBranch × Obj :=
           | .obj _ => (.error .typeError, o5)
           | _ => (.error .keyError, o5)
 
-/-- `entry_to_branch(entry)` for any value, with the post-state of the caller's object -/
+/-- `dict(x)` for a value that need not be a dictionary (a list that starts with a 2-element
+sequence — a genuine key/value pair — is outside the domain of the correspondence and answers
+`TypeError`) -/
+def pyDict : J → Except Err Obj
+  | .obj o => .ok o
+  | .arr [] => .ok []
+  -- the first element must be a sequence of length 2 (a key/value pair)
+  | .arr (.arr l :: _) => if l.length = 2 then .error .typeError else .error .valueError
+  | .arr (.obj o :: _) => if o.length = 2 then .error .typeError else .error .valueError
+  | .arr (.str s :: _) => if s.length = 2 then .error .typeError else .error .valueError
+  | .arr _ => .error .typeError                   -- cannot convert dictionary update sequence element
+  | .str s => if s.isEmpty then .ok [] else .error .valueError
+  | _ => .error .typeError                        -- not iterable
+
+/-- `entry_to_branch(entry)` for any value, with the post-state of the caller's object.
+With `entry = dict(entry)` as first statement (`entryCopied`) the caller's object is never
+touched; without it the pops act on the caller's dictionary. -/
 def entryToBranch (T : Trig) (e : J) : Except Err LBranch × J :=
-  match e with
-  | .obj o =>
-    let r := entryToBranchObj T o
-    (r.1, if entryCopied then e else .obj r.2)
-  | .arr _ => (.error .typeError, e)              -- list.pop('N1')
-  | _ => (.error .attributeError, e)              -- no attribute 'pop'
+  if entryCopied then
+    match pyDict e with
+    | .error x => (.error x, e)
+    | .ok o => ((entryToBranchObj T o).1, e)
+  else
+    match e with
+    | .obj o => let r := entryToBranchObj T o; (r.1, .obj r.2)
+    | .arr _ => (.error .typeError, e)              -- list.pop('N1')
+    | _ => (.error .attributeError, e)              -- no attribute 'pop'
 
 /-- the list comprehension of `load_network`: stops at the first exception; entries before
 it are fully processed, the failing one partially, later ones not at all -/
@@ -265,16 +284,20 @@ def checkLoaded (bs : List LBranch) : Except Err (List LBranch) :=
 /-- `except KeyError: raise FileExistsError` -/
 def mapLoadErr (e : Err) : Err := if e = errOfName loadCaught then errOfName loadRaised else e
 
-/-- `load_network(network_dict)` (loaders.py:41-52) with the post-state of `network_dict` -/
+/-- the body of `load_network` on the sequence of entries the comprehension iterates over -/
+def loadSeq (T : Trig) (es : List J) : Except Err (List LBranch) × List J :=
+  match loadEntries T es with
+  | (.error x, es') => (.error (mapLoadErr x), es')
+  | (.ok bs, es') => (match checkLoaded bs with | .error x => .error (mapLoadErr x) | .ok bs => .ok bs, es')
+
+/-- `load_network(network_dict)` (loaders.py:40-52) with the post-state of `network_dict`.
+Iterating a dictionary yields its keys, iterating a string its characters (strings are
+immutable: the post-state is the argument). -/
 def loadNetwork (T : Trig) (d : J) : Except Err (List LBranch) × J :=
   match d with
-  | .arr es =>
-    match loadEntries T es with
-    | (.error x, es') => (.error (mapLoadErr x), .arr es')
-    | (.ok bs, es') => (match checkLoaded bs with | .error x => .error (mapLoadErr x) | .ok bs => .ok bs, .arr es')
-  | .obj [] => (.ok [], d)
-  | .obj _ => (.error .attributeError, d)          -- iterating a dict yields its keys: str has no pop
-  | .str s => if s.isEmpty then (.ok [], d) else (.error .attributeError, d)
+  | .arr es => let r := loadSeq T es; (r.1, .arr r.2)
+  | .obj kv => ((loadSeq T (kv.map fun p => J.str p.1)).1, d)
+  | .str s => ((loadSeq T (s.toList.map fun c => J.str (String.singleton c))).1, d)
   | _ => (.error .typeError, d)                    -- not iterable
 
 /-! ### Circuit/dump_load.py -/
@@ -450,16 +473,6 @@ def undictifyCircuit (c : J) : Except Err Circ × J :=
 
 /-! ### dump_load.py -/
 
-/-- `dictify_complex_values(data)` on a dictionary (in place; flat) -/
-def dictifyCx : Obj → Obj
-  | [] => []
-  | (k, .cx z) :: r => (k, .obj [("real", .num z.re), ("imag", .num z.im)]) :: dictifyCx r
-  | p :: r => p :: dictifyCx r
-
-def dictifyCxJ : J → Option Err × J
-  | .obj o => (none, .obj (dictifyCx o))
-  | t => (some .attributeError, t)
-
 /-- real factor of a polar value after the check `value['abs'] < 0`:
 `Except.error` carries `ValueError` / `TypeError` -/
 def absFactor : J → Except Err GQ
@@ -467,7 +480,8 @@ def absFactor : J → Except Err GQ
   | .bool b => .ok (if b then 1 else 0)
   | _ => .error .typeError
 
-/-- the value one item of `undictify_complex_values` is replaced by (`none`: left alone) -/
+/-- `_complex_from_notation(value)` (dump_load.py:21-34) for a dictionary `value`; for any
+other tree `none` (the callers test `isinstance(value, dict)` first) -/
 def undictifyValue (T : Trig) (v : J) : Except Err (Option J) :=
   match v with
   | .obj vo =>
@@ -492,70 +506,91 @@ def undictifyValue (T : Trig) (v : J) : Except Err (Option J) :=
     else .ok none
   | _ => .ok none
 
-/-- `undictify_complex_values(data)` on a dictionary (in place; flat; stops at the first
-exception with the earlier items already converted) -/
-def undictifyCx (T : Trig) : Obj → Option Err × Obj
-  | [] => (none, [])
+/-- the loop of `dictify_complex_values` on the copy -/
+def dictifyCx : Obj → Obj
+  | [] => []
+  | (k, .cx z) :: r => (k, .obj [("real", .num z.re), ("imag", .num z.im)]) :: dictifyCx r
+  | p :: r => p :: dictifyCx r
+
+/-- `dictify_complex_values(data)` (dump_load.py:36-41): a new dictionary -/
+def dictifyCxJ (t : J) : Except Err J :=
+  match pyDict t with
+  | .error e => .error e
+  | .ok o => .ok (.obj (dictifyCx o))
+
+/-- the loop of `undictify_complex_values` on the copy; the first exception propagates -/
+def undictifyCx (T : Trig) : Obj → Except Err Obj
+  | [] => .ok []
   | (k, v) :: r =>
     match undictifyValue T v with
-    | .error e => (some e, (k, v) :: r)
+    | .error e => .error e
     | .ok nv =>
-      let (e, r') := undictifyCx T r
-      (e, (k, nv.getD v) :: r')
+      match undictifyCx T r with
+      | .error e => .error e
+      | .ok r' => .ok ((k, nv.getD v) :: r')
 
-def undictifyCxJ (T : Trig) : J → Option Err × J
-  | .obj o => let (e, o') := undictifyCx T o; (e, .obj o')
-  | t => (some .attributeError, t)
-
-/-- `dictify_all_complex_values(data)` (dump_load.py:42-46) on the items of a dictionary,
-transcribed literally: it recurses into dictionary values and re-assigns them; it
-contains no conversion -/
-def dictifyAllItems : List (String × J) → List (String × J)
-  | [] => []
-  | (k, .obj o) :: r => (k, .obj (dictifyAllItems o)) :: dictifyAllItems r
-  | p :: r => p :: dictifyAllItems r
-
-def dictifyAll : J → Option Err × J
-  | .obj o => (none, .obj (dictifyAllItems o))
-  | t => (some .attributeError, t)                  -- `.items()` on a non-dict
-
-/-- the tail of `undictify_all_complex_values` on a dictionary whose items have been processed:
-`return undictify_complex_values(data)` -/
-def undictifyFinish (T : Trig) (r : Option Err × Obj) : Option Err × Obj :=
-  match r with
-  | (some e, o') => (some e, o')
-  | (none, o') => undictifyCx T o'
+/-- `undictify_complex_values(data)` (dump_load.py:43-50): a new dictionary -/
+def undictifyCxJ (T : Trig) (t : J) : Except Err J :=
+  match pyDict t with
+  | .error e => .error e
+  | .ok o =>
+    match undictifyCx T o with
+    | .error e => .error e
+    | .ok o' => .ok (.obj o')
 
 mutual
-/-- the loop over `data.items()` of `undictify_all_complex_values` (dump_load.py:48-54) -/
-def undictifyAllItems (T : Trig) : List (String × J) → Option Err × List (String × J)
-  | [] => (none, [])
-  | (k, .obj o) :: r =>
-    match undictifyFinish T (undictifyAllItems T o) with
-    | (some e, o') => (some e, (k, .obj o') :: r)
-    | (none, o') => let (e, r') := undictifyAllItems T r; (e, (k, .obj o') :: r')
-  | (k, .arr l) :: r =>
-    match undictifyAllElems T l with
-    | (some e, l') => (some e, (k, .arr l') :: r)
-    | (none, l') => let (e, r') := undictifyAllItems T r; (e, (k, .arr l') :: r')
-  | p :: r => let (e, r') := undictifyAllItems T r; (e, p :: r')
-/-- `[undictify_all_complex_values(v) for v in value]`: every element must be a dictionary -/
-def undictifyAllElems (T : Trig) : List J → Option Err × List J
-  | [] => (none, [])
-  | .obj o :: r =>
-    match undictifyFinish T (undictifyAllItems T o) with
-    | (some e, o') => (some e, .obj o' :: r)
-    | (none, o') => let (e, r') := undictifyAllElems T r; (e, .obj o' :: r')
-  | a :: r => (some .attributeError, a :: r)         -- `.items()` on a non-dict
+/-- `dictify_all_complex_values(data)` (dump_load.py:52-59): complex ↦ `{'real','imag'}`,
+dictionaries and lists rebuilt recursively, anything else itself; total -/
+def dictifyAll : J → J
+  | .cx z => .obj [("real", .num z.re), ("imag", .num z.im)]
+  | .obj o => .obj (dictifyAllO o)
+  | .arr l => .arr (dictifyAllL l)
+  | t => t
+def dictifyAllO : List (String × J) → List (String × J)
+  | [] => []
+  | (k, v) :: r => (k, dictifyAll v) :: dictifyAllO r
+def dictifyAllL : List J → List J
+  | [] => []
+  | a :: r => dictifyAll a :: dictifyAllL r
 end
 
-/-- `undictify_all_complex_values(data)` on a dictionary -/
-def undictifyAllObj (T : Trig) (o : Obj) : Option Err × Obj :=
-  undictifyFinish T (undictifyAllItems T o)
-
-def undictifyAll (T : Trig) : J → Option Err × J
-  | .obj o => let (e, o') := undictifyAllObj T o; (e, .obj o')
-  | t => (some .attributeError, t)
+mutual
+/-- `undictify_all_complex_values(data)` (dump_load.py:61-68): a dictionary has its values
+converted first (in order; the first exception propagates) and is then itself replaced by the
+number it denotes if it is a notation; lists are rebuilt; anything else is returned as is -/
+def undictifyAll (T : Trig) : J → Except Err J
+  | .obj o =>
+    match undictifyAllO T o with
+    | .error e => .error e
+    | .ok o' =>
+      match undictifyValue T (.obj o') with
+      | .error e => .error e
+      | .ok (some c) => .ok c
+      | .ok none => .ok (.obj o')
+  | .arr l =>
+    match undictifyAllL T l with
+    | .error e => .error e
+    | .ok l' => .ok (.arr l')
+  | t => .ok t
+def undictifyAllO (T : Trig) : List (String × J) → Except Err (List (String × J))
+  | [] => .ok []
+  | (k, v) :: r =>
+    match undictifyAll T v with
+    | .error e => .error e
+    | .ok v' =>
+      match undictifyAllO T r with
+      | .error e => .error e
+      | .ok r' => .ok ((k, v') :: r')
+def undictifyAllL (T : Trig) : List J → Except Err (List J)
+  | [] => .ok []
+  | a :: r =>
+    match undictifyAll T a with
+    | .error e => .error e
+    | .ok a' =>
+      match undictifyAllL T r with
+      | .error e => .error e
+      | .ok r' => .ok (a' :: r')
+end
 
 /-- `Path(file).suffix[1:]` for a plain file name (pathlib of Python 3.12) -/
 def pathSuffix (file : String) : String :=
@@ -571,14 +606,10 @@ def pathSuffix (file : String) : String :=
 
 /-- `serialize(data, format)` with the default `dict_processor`; `dumps lib t` is the library
 serialiser `lib` (`json.dumps`, `yaml.dump`) applied to the tree `t` -/
-def serialize (dumps : String → J → Except Err String) (data : J) (fmt : String) :
-    Except Err String × J :=
+def serialize (dumps : String → J → Except Err String) (data : J) (fmt : String) : Except Err String :=
   match serializers.find? (fun p => p.1 == fmt) with
-  | none => (.error .valueError, data)
-  | some (_, lib) =>
-    match dictifyAll data with
-    | (some e, d') => (.error e, d')
-    | (none, d') => (dumps lib d', d')
+  | none => .error .valueError
+  | some (_, lib) => dumps lib (dictifyAll data)
 
 /-- `deserialize(data, format)` with the default `dict_preprocessor` -/
 def deserialize (loads : String → String → Except Err J) (T : Trig) (s : String) (fmt : String) :
@@ -588,28 +619,29 @@ def deserialize (loads : String → String → Except Err J) (T : Trig) (s : Str
   | some (_, lib) =>
     match loads lib s with
     | .error e => .error e
-    | .ok t =>
-      match undictifyAll T t with
-      | (some e, _) => .error e
-      | (none, t') => .ok t'
+    | .ok t => undictifyAll T t
 
 /-- `dump(file, data)`: the text written to `file` -/
-def dump (dumps : String → J → Except Err String) (file : String) (data : J) : Except Err String × J :=
+def dump (dumps : String → J → Except Err String) (file : String) (data : J) : Except Err String :=
   serialize dumps data (pathSuffix file)
 
 /-- `load(file)` given the file's content -/
 def load (loads : String → String → Except Err J) (T : Trig) (file content : String) : Except Err J :=
   deserialize loads T content (pathSuffix file)
 
-/-- `Circuit.dump_load.deserialize = partial(dump_load.deserialize, dict_preprocessor=undictify_circuit)`:
-the generic complex conversion is *replaced*, not composed -/
-def deserializeCircuit (loads : String → String → Except Err J) (s : String) (fmt : String) :
+/-- `Circuit.dump_load.deserialize = partial(dump_load.deserialize,
+dict_preprocessor=lambda data: undictify_circuit(dump_load.undictify_all_complex_values(data)))`:
+the complex notations are converted first, then the components are built -/
+def deserializeCircuit (loads : String → String → Except Err J) (T : Trig) (s : String) (fmt : String) :
     Except Err Circ :=
   match deserializers.find? (fun p => p.1 == fmt) with
   | none => .error .valueError
   | some (_, lib) =>
     match loads lib s with
     | .error e => .error e
-    | .ok t => (undictifyCircuit t).1
+    | .ok t =>
+      match undictifyAll T t with
+      | .error e => .error e
+      | .ok t' => (undictifyCircuit t').1
 
 end CC.Load
